@@ -25,6 +25,20 @@ def symbolize(exe, addrs):
     return out
 
 
+_SRC = {}
+
+
+def source_line(loc):
+    """'json_object.c:478' -> the text of that line in the tree under test, blanks squeezed (names a call site without depending on line numbers)"""
+    try:
+        fn, ln = loc.rsplit(":", 1)
+        if fn not in _SRC:
+            _SRC[fn] = open(os.path.join(build.REPO, fn), errors="replace").read().split("\n")
+        return " ".join(_SRC[fn][int(ln) - 1].split())
+    except (OSError, ValueError, IndexError):
+        return "?"
+
+
 def source_sites():
     cfg = build.configure(False)
     srcs = json.load(open(os.path.join(cfg, "srcs.json")))["sources"]
@@ -78,7 +92,7 @@ def shard_fn(shard, nshards, seed, tier, exe, workloads, ndouble):
                 elif ln.startswith("F "):
                     f = ln.split()
                     d = dict(x.split("=", 1) for x in f[3:])
-                    facts.append((int(f[1]), int(f[2]), int(d["fired"]), d["site"], d["kind"], d["out"], d["v"], cid.split(".")[2] == "0", int(cid.split(".")[2])))
+                    facts.append((int(f[1]), int(f[2]), int(d["fired"]), d["site"], d["kind"], d["out"], d["v"], cid.split(".")[2] == "0", int(cid.split(".")[2]), d.get("stack", "-")))
         for cr in crashes:
             kind, frame = cr.summary()
             ks = [ln.split() for ln in cr.partial if ln.startswith("K ")]
@@ -92,8 +106,12 @@ def shard_fn(shard, nshards, seed, tier, exe, workloads, ndouble):
             crashes_per_w[w] = crashes_per_w.get(w, 0) + 1
             if cr.cid.endswith(".r") and crashes_per_w[w] <= 10:
                 queue.append((w, k + 1, 0, int(cr.cid.split(".")[2])))
+    bad_stacks = {a for f in facts if f[6] != "ok" and f[9] != "-" for a in f[9].split(",")}
     sites = symbolize(exe, {f[3] for f in facts} | {m.group(1) for f in facts for m in [re.search(r"site-([0-9a-f]+)", f[6])] if m})
-    for (w, k, fired, site, akind, outc, v, single, k2off) in facts:
+    # return addresses of the failed allocation's callers; address-1 lies inside the call instruction, so the line is the call's own
+    back = symbolize(exe, {"%x" % (int(a, 16) - 1) for a in bad_stacks if a not in ("", "0")})
+    calls = {a: back.get("%x" % (int(a, 16) - 1), ("?", "?")) for a in bad_stacks if a not in ("", "0")}
+    for (w, k, fired, site, akind, outc, v, single, k2off, stack) in facts:
         name, cat = workloads[w]
         sh.evaluations += 1
         fn, loc = sites.get(site, ("?", "?"))
@@ -116,7 +134,15 @@ def shard_fn(shard, nshards, seed, tier, exe, workloads, ndouble):
             if cat.startswith("serialize") and facet == "wrong-result" and fn == "printbuf_extend":
                 # the listed finding, identified by exactly this shape: a serializer returned text although growing its
                 # print buffer failed.  Any other facet (leak, crash, changed caller object) or any other fault site keeps its own key.
-                key = "C08/serializer-ignores-printbuf-failure"
+                # ... and by the function that asked the print buffer to grow and went on regardless (first frame outside printbuf.c): a serializer that
+                # is not on the list is a new violation
+                consumer = "?"
+                for a in (stack.split(",") if stack != "-" else []):
+                    fn2, loc2 = calls.get(a, ("?", "?"))
+                    if not loc2.startswith("printbuf.") and not fn2.startswith(("printbuf_", "sprintbuf", "vf_")):
+                        consumer = "%s: %s" % (fn2, source_line(loc2))
+                        break
+                key = "C08/serializer-ignores-printbuf-failure/" + consumer
             sh.violation(key, "%s with allocation #%d (%s at %s %s) failed: %s" % (name, k, akind, fn, loc, v),
                          {"driver": "faultdrv", "variant": "asan", "env": {"LOCPATH": locale_synth.LOCDIR}, "script": ["W %d %d %d %d" % (w, k, k, k2off)], "workload": name, "fault_index": k, "fault_site": "%s %s" % (fn, loc), "verdict": v})
         if len(sh.samples) < 2 and fired and k > 3:
